@@ -333,7 +333,10 @@ class Stream(meta(Iterable, metaclass=StreamMeta)):
     """
     def skipper(data):
       for _ in xrange(int(round(n))):
-        next(data)
+        try:
+          next(data)
+        except StopIteration:
+          return
       for el in data:
         yield el
 
